@@ -864,6 +864,12 @@ func TestGenEnableHeights(t *testing.T) {
 					c.EnableHeight[name] = hs[rng.Intn(len(hs))]
 				}
 			}
+			if i%3 == 1 { // every third configuration switches the default-disabled "none" driver on at a non-negative height
+				if !strings.Contains(strings.Join(c.EnableTypes, ","), none.Name) {
+					c.EnableTypes = append(c.EnableTypes, none.Name)
+				}
+				c.EnableHeight[none.Name] = hs[1+rng.Intn(5)]
+			}
 		}
 		for _, name := range allTypeNames {
 			qh := map[int64]bool{0: true, 1: true, 1 << 41: true, math.MaxInt64: true, rng.Int63n(2000): true}
